@@ -11,6 +11,9 @@ SHAPE_FIELDS = {"used", "sign", "alloc", "coord"}
 PC = -1     # pseudo variable: control already depends on secret data
 
 DECLASS = {"bn_bits", "bn_sign", "bn_is_zero", "bn_size_bin", "bn_size_raw"}
+# routines whose output sign is the (public) sign of their input or a constant: copies, |k|, -k, k mod n, constants
+SIGN_PRESERVING = {"bn_copy", "bn_abs", "bn_neg", "bn_mod", "bn_mod_basic", "bn_mod_barrt", "bn_mod_monty", "bn_mod_pmers",
+                   "bn_new", "bn_null", "bn_free", "bn_clean", "bn_zero", "bn_set_dig", "bn_grow", "bn_trim", "bn_make", "bn_init"}
 
 
 class Taint:
@@ -23,6 +26,7 @@ class Taint:
         self.g = eng.ctx.xcfg(eng.prog, fn)
         self.depth = depth
         self.src = set(fn.params[p] for p in tainted_positions if p < len(fn.params))
+        self._sign_public = None
         # parameters known to be a literal constant at the call site: branches they decide are pruned
         self.follows = []
         for pos, val in (consts or {}).items():
@@ -51,6 +55,12 @@ class Taint:
             return self.tainted(e[2], st, depth + 1)
         if t == "m":
             if e[2] in SHAPE_FIELDS:
+                if e[2] == "sign":
+                    # the sign of the input scalar is public; the sign of an integer *derived* from it (a sub-scalar of
+                    # a decomposition, a difference) depends on the value
+                    b = ir.base_var(fn, e[1])
+                    if b is not None and b in st and not self.sign_public(b):
+                        return True
                 return False
             return self.tainted(e[1], st, depth + 1)
         if t == "x":
@@ -82,6 +92,10 @@ class Taint:
                 a0 = ir.peel(fn, e[2][0])
                 if isinstance(a0, list) and a0[0] == "v" and a0[1] in self.src:
                     return False        # public shape of the input scalar itself
+                if name == "bn_sign":
+                    b = ir.base_var(fn, e[2][0])
+                    # sign of an integer derived from the secret (sub-scalar of a decomposition, difference): value-dependent
+                    return not (b is not None and self.sign_public(b))
             outs = self.eng.summary(self.fn, name, tin, self.depth, self.const_args(e)) if name else None
             if outs is None:
                 return True
@@ -91,6 +105,39 @@ class Taint:
         if t == "cl":
             return self.tainted(e[1], st, depth + 1)
         return False
+
+    def sign_public(self, v):
+        """is the sign of integer variable v public: the input scalar itself, or a variable only ever written by
+        sign-preserving routines (copy, absolute value, negation, reduction) - flow-insensitive"""
+        if v in self.src:
+            return True
+        if self._sign_public is None:
+            writers = {}
+            fn = self.fn
+            for el in fn.all_elements():
+                for c in ir.calls_in(fn, el.e):
+                    if not c[2]:
+                        continue
+                    for pos, a in enumerate(c[2]):
+                        b = ir.base_var(fn, a)
+                        if b is None:
+                            continue
+                        if pos == 0 or (isinstance(c[1], str) and not c[1].startswith("bn_") and engines.callee_writes_arg(self.prog, fn, c[1], pos)) \
+                                or (isinstance(c[1], str) and c[1].startswith("bn_rec_") and engines.callee_writes_arg(self.prog, fn, c[1], pos)):
+                            if pos == 0 and isinstance(c[1], str) and engines.PURE_PREDICATE.match(c[1]):
+                                continue
+                            if pos == 0 and c[1] in DECLASS:
+                                continue
+                            writers.setdefault(b, set()).add(c[1])
+                for sub in ir.walk(fn, el.e):
+                    if sub[0] == "=":
+                        v2, f = engines.lvalue_path(fn, sub[1])
+                        if v2 is not None and f == "sign":
+                            r = ir.peel(fn, sub[2])
+                            if not (isinstance(r, list) and r and r[0] == "i"):
+                                writers.setdefault(v2, set()).add("=sign")
+            self._sign_public = set(b for b, ws in writers.items() if all(isinstance(w, str) and w in SIGN_PRESERVING for w in ws))
+        return v in self._sign_public
 
     def const_args(self, call):
         out = {}
